@@ -82,12 +82,178 @@ def _const_truth(test):
     return None
 
 
+_ANCHORS = None
+
+
+def anchors():
+    global _ANCHORS
+    if _ANCHORS is None:
+        import json
+        import os
+        p = os.path.join(os.path.dirname(os.path.dirname(os.path.abspath(__file__))), "spec", "anchors.json")
+        try:
+            _ANCHORS = set(json.load(open(p))["functions"])
+        except OSError:
+            _ANCHORS = set()
+    return _ANCHORS
+
+
+class _Rename(ast.NodeTransformer):
+    def __init__(self, names, prefix):
+        self.names, self.prefix = names, prefix
+
+    def visit_Name(self, n):
+        if n.id in self.names:
+            return ast.copy_location(ast.Name(id=self.prefix + n.id, ctx=n.ctx), n)
+        return n
+
+
+def _local_names(fnode):
+    out = set()
+    for n in ast.walk(fnode):
+        if isinstance(n, ast.Name) and isinstance(n.ctx, (ast.Store, ast.Del)):
+            out.add(n.id)
+        elif isinstance(n, ast.ExceptHandler) and n.name:
+            out.add(n.name)
+    a = fnode.args
+    for x in a.posonlyargs + a.args + a.kwonlyargs:
+        out.add(x.arg)
+    if a.vararg:
+        out.add(a.vararg.arg)
+    if a.kwarg:
+        out.add(a.kwarg.arg)
+    out.discard("self")
+    return out
+
+
 class Enumerator:
-    def __init__(self, unroll=1, may_raise=None, summarize_pad=True):
+    def __init__(self, unroll=1, may_raise=None, summarize_pad=True, prog=None, cls=None, inline=True):
         self.unroll = unroll
         self.may_raise = may_raise  # node -> set of exception type names ('*' = unknown) or empty
         self.summarize_pad = summarize_pad
         self.count = 0
+        self.prog, self.cls = prog, cls
+        self.inline = inline and prog is not None and cls is not None
+        self._n = 0
+        self._depth = 0
+
+    # ---- inlining of helper methods that are not rule anchors (introduced by later clean-ups)
+    def _helper(self, call):
+        """Func for `self.h(...)` when h is a same-class method that is not an anchor, else None"""
+        if not self.inline or self._depth >= 3 or not isinstance(call, ast.Call):
+            return None
+        f = call.func
+        if not (isinstance(f, ast.Attribute) and isinstance(f.value, ast.Name) and f.value.id == "self"):
+            return None
+        if f.attr in anchors() or any(isinstance(a, ast.Starred) for a in call.args) or any(k.arg is None for k in call.keywords):
+            return None
+        fn = self.prog.find_method(self.cls, f.attr)
+        if fn is None or fn.kind != "method" or fn.vararg or fn.kwarg:
+            return None
+        if any(isinstance(n, (ast.Yield, ast.YieldFrom, ast.Await, ast.Global, ast.Nonlocal, ast.Lambda)) for n in ast.walk(fn.node)):
+            return None
+        if any(isinstance(n, ast.Call) and isinstance(n.func, ast.Attribute) and isinstance(n.func.value, ast.Name)
+               and n.func.value.id == "self" and n.func.attr == fn.name for n in ast.walk(fn.node)):
+            return None   # recursive
+        return fn
+
+    def _inline(self, call, fn, on_value):
+        """paths of the callee body with parameters bound; `on_value(expr_ast)` -> list of events for the returned value"""
+        import copy
+        self._n += 1
+        prefix = "_inl%d_" % self._n
+        names = _local_names(fn.node)
+        ren = _Rename(names, prefix)
+        binds = []
+        params = list(fn.params)
+        given = {}
+        for i, a in enumerate(call.args):
+            if i < len(params):
+                given[params[i]] = a
+        for k in call.keywords:
+            given[k.arg] = k.value
+        for p_ in params + fn.kwonly:
+            v = given.get(p_, fn.defaults.get(p_))
+            if v is None:
+                raise AnalysisError("call of helper %s lacks argument %s" % (fn.qual, p_))
+            asg = ast.Assign(targets=[ast.Name(id=prefix + p_, ctx=ast.Store())], value=v)
+            ast.copy_location(asg, call)
+            ast.fix_missing_locations(asg)
+            binds.append(Ev("stmt", asg))
+        body = [ren.visit(copy.deepcopy(st)) for st in fn.node.body
+                if not (isinstance(st, ast.Expr) and isinstance(st.value, ast.Constant))]
+        for b in body:
+            ast.fix_missing_locations(b)
+        self._depth += 1
+        try:
+            saved_cls = self.cls
+            paths = self.block(body)
+        finally:
+            self._depth -= 1
+        out = []
+        none = ast.copy_location(ast.Constant(value=None), call)
+        for p_ in paths:
+            evs = list(binds) + list(p_.events)
+            if p_.term == "return":
+                last = evs[-1]
+                val = last.node.value if isinstance(last.node, ast.Return) and last.node.value is not None else none
+                raised = isinstance(last.extra, tuple) and last.extra and last.extra[0] == "raised"
+                if raised:
+                    out.append(Path(evs, "exc", p_.exc_types))
+                    continue
+                evs = evs[:-1]
+                for q in on_value(val):
+                    out.append(Path(evs + q.events, q.term, q.exc_types))
+            elif p_.term == "fall":
+                for q in on_value(none):
+                    out.append(Path(evs + q.events, q.term, q.exc_types))
+            else:
+                out.append(Path(evs, p_.term, p_.exc_types))
+        return out
+
+    def _hoist(self, st):
+        """helper calls nested inside a simple statement are evaluated into temporaries first"""
+        if not self.inline:
+            return None
+        import copy
+        found = []
+        blocked = set()
+        for n in ast.walk(st):
+            if isinstance(n, (ast.BoolOp, ast.IfExp, ast.Lambda, ast.ListComp, ast.SetComp, ast.DictComp, ast.GeneratorExp)):
+                for c in ast.walk(n):
+                    if c is not n:
+                        blocked.add(id(c))
+        top = st.value if isinstance(st, (ast.Assign, ast.AnnAssign, ast.Expr, ast.Return, ast.AugAssign)) else None
+        for n in ast.walk(st):
+            if isinstance(n, ast.Call) and n is not top and id(n) not in blocked and self._helper(n) is not None:
+                found.append(n)
+        if not found:
+            return None
+        # innermost first: a call that contains another found call is handled after it
+        st2 = copy.deepcopy(st)
+        pre = []
+        for _ in range(len(found)):
+            cands = [n for n in ast.walk(st2) if isinstance(n, ast.Call) and self._helper(n) is not None
+                     and n is not (st2.value if hasattr(st2, "value") else None)
+                     and not any(isinstance(c, ast.Call) and c is not n and self._helper(c) is not None for c in ast.walk(n) if c is not n)]
+            if not cands:
+                break
+            c = cands[0]
+            self._n += 1
+            tmp = "_tmp%d" % self._n
+            asg = ast.Assign(targets=[ast.Name(id=tmp, ctx=ast.Store())], value=copy.deepcopy(c))
+            ast.copy_location(asg, c)
+            ast.fix_missing_locations(asg)
+            pre.append(asg)
+
+            class R(ast.NodeTransformer):
+                def visit_Call(self_inner, node):
+                    if node is c:
+                        return ast.copy_location(ast.Name(id=tmp, ctx=ast.Load()), node)
+                    return self_inner.generic_visit(node)
+            st2 = R().visit(st2)
+            ast.fix_missing_locations(st2)
+        return pre + [st2]
 
     # ---- public
     def function(self, fnode):
@@ -123,6 +289,26 @@ class Enumerator:
         return [Path([e2], "exc", frozenset(types))]
 
     def stmt(self, st):
+        if isinstance(st, (ast.Assign, ast.AugAssign, ast.AnnAssign, ast.Expr, ast.Return)) and self.inline:
+            hoisted = self._hoist(st)
+            if hoisted is not None:
+                return self.block(hoisted)
+            val = getattr(st, "value", None)
+            fn = self._helper(val) if val is not None and not isinstance(st, ast.AugAssign) else None
+            if fn is not None:
+                def on_value(expr, st=st):
+                    if isinstance(st, ast.Expr):
+                        return [Path([], "fall")]
+                    if isinstance(st, ast.Return):
+                        r = ast.copy_location(ast.Return(value=expr), st)
+                        return [Path([Ev("stmt", r)], "return")]
+                    if isinstance(st, ast.AnnAssign):
+                        a = ast.copy_location(ast.Assign(targets=[st.target], value=expr), st)
+                    else:
+                        a = ast.copy_location(ast.Assign(targets=st.targets, value=expr), st)
+                    ast.fix_missing_locations(a)
+                    return [Path([Ev("stmt", a)], "fall")]
+                return self._inline(val, fn, on_value)
         if isinstance(st, (ast.Assign, ast.AugAssign, ast.AnnAssign, ast.Expr, ast.Delete, ast.Pass, ast.Assert,
                            ast.Import, ast.ImportFrom, ast.Global, ast.Nonlocal)):
             ev = Ev("stmt", st)
@@ -165,7 +351,43 @@ class Enumerator:
         ev = Ev("cond", test, pol)
         return ev
 
+    def _test_paths(self, test):
+        """[(prefix Path, cond Ev factory)] : a test that is `self.h(..)` / `not self.h(..)` is evaluated through the helper's paths"""
+        neg = False
+        t = test
+        if isinstance(t, ast.UnaryOp) and isinstance(t.op, ast.Not):
+            neg, t = True, t.operand
+        fn = self._helper(t)
+        if fn is None:
+            return None
+        res = []
+
+        def on_value(expr):
+            e = ast.copy_location(ast.UnaryOp(op=ast.Not(), operand=expr), test) if neg else expr
+            ast.fix_missing_locations(e)
+            return [Path([Ev("condval", e)], "fall")]
+        for p in self._inline(t, fn, on_value):
+            res.append(p)
+        return res
+
     def _if(self, st):
+        tp = self._test_paths(st.test) if self.inline else None
+        if tp is not None:
+            out = []
+            for p in tp:
+                if p.term != "fall" or not p.events or p.events[-1].kind != "condval":
+                    out.append(p)
+                    continue
+                expr = p.events[-1].node
+                pre = Path(p.events[:-1], "fall")
+                ctv = _const_truth(expr)
+                if ctv is not False:
+                    for b in self.block(st.body):
+                        out.append(pre + Path([Ev("cond", expr, True)], "fall") + b)
+                if ctv is not True:
+                    for b in self.block(st.orelse):
+                        out.append(pre + Path([Ev("cond", expr, False)], "fall") + b)
+            return out
         out = []
         ct = _const_truth(st.test)
         rais = self._raising(st.test, Ev("cond", st.test, None))
@@ -411,9 +633,10 @@ def replay(prog, func, path, env=None, keep_env=False, evalr=None, prune=True):
 
 
 def runs_of(prog, func, unroll=1, may_raise=None, keep_env=False, body=None, env=None, evalr=None,
-            summarize_pad=True):
+            summarize_pad=True, inline=True):
     """All feasible replayed paths of a function (or of a statement list `body` inside it)."""
-    en = Enumerator(unroll=unroll, may_raise=may_raise, summarize_pad=summarize_pad)
+    en = Enumerator(unroll=unroll, may_raise=may_raise, summarize_pad=summarize_pad, prog=prog, cls=func.cls if func is not None else None,
+                    inline=inline)
     paths = en.block(body if body is not None else func.node.body)
     out = []
     for p in paths:
